@@ -12,6 +12,7 @@ pub mod kani;
 pub use ::kani;
 
 pub mod refs;
+pub mod isa_ref;
 
 pub mod st;
 
@@ -21,6 +22,11 @@ pub mod h_board;
 pub mod h_reset;
 pub mod h_edge;
 pub mod h_panic;
+pub mod h_seq;
+pub mod h_path;
+pub mod h_tr;
+pub mod h_load;
+pub mod h_asm;
 
 #[path = "gen/mod.rs"]
 pub mod gen;
